@@ -144,7 +144,8 @@ fn outcome_of<T>(r: std::thread::Result<Result<T, std::io::Error>>) -> (String, 
 
 /// Child: run the case, streaming observations.
 fn child(case: &C14Case, fd: i32) {
-    crate::vsched::install(); // quiet panic hook; hooks pass through (no virtual threads)
+    crate::vsched::install();
+    ignore_sigpipe(); // quiet panic hook; hooks pass through (no virtual threads)
     let mut prefix_sigs: Vec<c_int> = Vec::new();
     for (i, p) in case.prefix.iter().enumerate() {
         let s = SAFE[*p as usize % SAFE.len()];
